@@ -28,6 +28,7 @@ from hv.builders import vmdk as bvmdk
 from hv.builders import vmxcrypt as bvx
 from hv.core import track as core_track
 from hv.core import CaseTimeout, Outcome
+from hv.core import in_library as core_in_library
 from hv.props import c12, c20
 
 ID = "C11"
@@ -89,6 +90,36 @@ def deflate_bomb(raw: bool, expanded: int) -> bytes:
 
 
 @functools.lru_cache(maxsize=None)
+def vmdk_bomb(form: str) -> bytes:
+    """A stream-optimised extent with one compressed grain whose stream expands to 128 MiB; the stream is zlib-wrapped (as the
+    format has it), a raw deflate stream, or gzip-wrapped (what a lenient reader might also accept)."""
+    import gzip as _gzip
+
+    def vm(kind, **kw):
+        spec = {"kind": kind, "capacity": 200, "grain": 8, "present_gts": [], "pad": 0, "layer": 0,
+                "gtes": 16, "zero_flag": False, "redundant": False, "meta_first": True}
+        spec.update(kw)
+        return bvmdk.build(spec)[0].materialize()
+
+    gb = bytearray(vm("kdmv", compressed=True, footer=False, embedded_lba=True, version=3, grains=[[0, "a", 0]]))
+    zb = {"zlib": lambda: zlib.compress(bytes(128 << 20), 9), "raw": lambda: deflate_bomb(True, 128 << 20),
+          "gzip": lambda: _gzip.compress(bytes(128 << 20), 9, mtime=0)}[form]()
+    for off in range(512, len(gb) - 12, 512):
+        lba, clen = struct.unpack_from("<QI", gb, off)
+        if lba == 0 and 0 < clen < 8192 and gb[off + 12 : off + 14] in (b"\x78\x9c", b"\x78\xda", b"\x78\x01", b"\x78\x5e"):
+            grain_sector = off // 512
+            break
+    pos = len(gb)
+    gb.extend(struct.pack("<QI", 0, len(zb)) + zb)
+    gb.extend(bytes(-len(gb) % 512))
+    # point the grain table entry at the bomb
+    for off in range(0, pos - 4, 4):
+        if struct.unpack_from("<I", gb, off)[0] == grain_sector and off >= 512:
+            struct.pack_into("<I", gb, off, pos // 512)
+    return bytes(gb)
+
+
+@functools.lru_cache(maxsize=None)
 def seeds():
     s = {}
     s["qcow2"] = ("qcow2", _q2(), 1 << 12, bq.HEADER_FIELDS)
@@ -128,21 +159,7 @@ def seeds():
     s["vmdk-cowd"] = ("vmdk", vm("cowd"), 4096, bvmdk.COWD_FIELDS)
     s["vmdk-sesparse"] = ("vmdk", vm("sesparse"), 4096, bvmdk.SES_FIELDS)
     # VMDK bomb: one compressed grain whose stream expands to 128 MiB
-    gb = bytearray(vm("kdmv", compressed=True, footer=False, embedded_lba=True, version=3, grains=[[0, "a", 0]]))
-    zb = zlib.compress(bytes(128 << 20), 9)
-    for off in range(512, len(gb) - 12, 512):
-        lba, clen = struct.unpack_from("<QI", gb, off)
-        if lba == 0 and 0 < clen < 8192 and gb[off + 12 : off + 14] in (b"\x78\x9c", b"\x78\xda", b"\x78\x01", b"\x78\x5e"):
-            grain_sector = off // 512
-            break
-    pos = len(gb)
-    gb.extend(struct.pack("<QI", 0, len(zb)) + zb)
-    gb.extend(bytes(-len(gb) % 512))
-    # point the grain table entry at the bomb
-    for off in range(0, pos - 4, 4):
-        if struct.unpack_from("<I", gb, off)[0] == grain_sector and off >= 512:
-            struct.pack_into("<I", gb, off, pos // 512)
-    s["vmdk-bomb"] = ("vmdk", bytes(gb), 4096, {})
+    s["vmdk-bomb"] = ("vmdk", vmdk_bomb("zlib"), 4096, {})
     s["vmdk-descriptor"] = ("vmdk-desc", bvmdk.descriptor_text({"extents": [{"sectors": 64, "type": "SPARSE", "file": "e.vmdk"}, {"sectors": 8, "type": "FLAT", "file": "f.vmdk", "offset": 0}],
                                                                "ddb": {"ddb.adapterType": "ide"}}).encode(), 4096, {})
     vx = c12.base_vhdx()
@@ -237,6 +254,38 @@ def vmdk_bomb_with_footer(front_grain: int) -> bytes:
     return bytes(out)
 
 
+def tar_rechecksum(b: bytearray, blocks: int = 64) -> None:
+    """Recompute the header checksum of every block that still looks like a tar header (mutated fields behind a valid checksum)."""
+    for i in range(min(blocks, len(b) // 512)):
+        blk = b[512 * i : 512 * i + 512]
+        if blk[257:262] in (b"ustar", b"visor"):
+            blk[148:156] = b" " * 8
+            blk[148:156] = b"%06o\x00 " % sum(blk)
+            b[512 * i : 512 * i + 512] = blk
+
+
+def vmtar_pax_cycle(lead: int, size: int, target: int) -> bytes:
+    """`lead` ordinary empty members, then an extended (pax) header with a size record in front of a visor member whose data
+    offset is chosen such that data offset + padded size is the position of header block number `target` (itself or an earlier one)."""
+    import tarfile
+
+    out = bytearray()
+    for i in range(lead):
+        out += tarfile.TarInfo(f"lead{i}").tobuf(tarfile.USTAR_FORMAT)
+    ti = tarfile.TarInfo("member")
+    ti.size = size
+    ti.pax_headers = {"size": str(size)}
+    blk = bytearray(ti.tobuf(tarfile.PAX_FORMAT))
+    real = len(blk) - 512
+    padded = -(-size // 512) * 512
+    blk[real + 257 : real + 265] = b"visor  \0"
+    off = 512 * target - padded
+    struct.pack_into("<I", blk, real + 496, off if off > 0 else 512 * target + 1)
+    out += blk
+    tar_rechecksum(out)
+    return bytes(out) + bytes(1024) + bytes(range(256)) * 8
+
+
 @functools.lru_cache(maxsize=None)
 def biggrain_vmdk(ngrains=48, grain=8192):
     """A stream-optimised VMDK of a few hundred KiB with `ngrains` compressed 4 MiB grains (a valid grain size), each a run of
@@ -293,6 +342,8 @@ def exhaustive(tier):
             lengthy = width >= 4 and any(t in fname.lower() for t in ("size", "len", "off", "count"))
             for v in special_values(cur, width, off, len(data), others, small if lengthy else ()):
                 yield {"seed": sname, "ops": [["set", off, width, v, order]], "field": fname}
+                if sname == "vmtar" and not fname.endswith(".chk"):
+                    yield {"seed": sname, "ops": [["set", off, width, v, order]], "field": fname, "rechk": True}
     # crafted cycles and bombs
     for n in range(1, 5):
         for lead in (0, 1):
@@ -363,8 +414,16 @@ def exhaustive(tier):
     for ln in (1 << 28, 3 << 28, 1 << 31, 0xFFFFFFF8, 0xFFFFFFFF, 8, 0):
         for bfo in (1 << 40, (1 << 28) + 4096, 0):
             yield {"seed": "qcow2", "ops": [], "craft": "ext-flood", "ext_len": ln, "bfo": bfo}
+    # an extended header with a size record in front of a visor member whose data offset leads back to an earlier header
+    for lead in (0, 1, 2, 4):
+        for size in (0, 1, 700):
+            for target in range(0, lead + 3):
+                yield {"seed": "vmtar", "ops": [], "craft": "pax-cycle", "lead": lead, "size": size, "target": target}
     yield {"seed": "qcow2-bomb", "ops": []}
     yield {"seed": "vmdk-bomb", "ops": []}
+    # the same bomb as a raw deflate stream and as a gzip member (stream wrappers a lenient reader might fall back to)
+    for form in ("raw", "gzip"):
+        yield {"seed": "vmdk-bomb", "ops": [], "craft": "bomb-stream", "form": form}
     # memory must follow the request at hand, not the number of earlier requests: sweep over many large compressed grains
     yield {"seed": "vmdk-stream", "ops": [], "craft": "biggrain-sweep"}
     yield {"seed": "qcow2", "ops": [], "craft": "l1-to-header"}
@@ -414,7 +473,10 @@ def strategy_(draw, tier):
         else:
             off = draw(st.integers(0, max(0, meta_end - 1)))
             ops.append(["xor", off, 1 << draw(st.integers(0, 7))])
-    return {"seed": sname, "ops": ops}
+    spec = {"seed": sname, "ops": ops}
+    if sname == "vmtar" and draw(st.booleans()):
+        spec["rechk"] = True  # header checksums recomputed after the mutation: the mutated field is reached instead of refused
+    return spec
 
 
 def strategy(tier):
@@ -543,13 +605,19 @@ def drive(kind, data: bytes, spec):
     elif kind == "vmtar":
         from dissect.hypervisor.util import vmtar
 
-        t = vmtar.open(fileobj=core_track(data))
-        stage = "opened"
-        for m in t.getmembers()[:50]:
-            if m.isreg():
-                f = t.extractfile(m)
-                if f is not None:
-                    f.read(REQ)
+        try:
+            t = vmtar.open(fileobj=core_track(data))
+            stage = "opened"
+            for m in t.getmembers()[:50]:
+                if m.isreg():
+                    f = t.extractfile(m)
+                    if f is not None:
+                        f.read(REQ)
+        except CaseTimeout as e:
+            # vmtar.open returns a standard-library TarFile configured with the library's member class: time spent in there is
+            # the library's although no library frame is on the stack at that moment
+            e.in_lib_call = "vmtar.py:open(tarfile)"
+            raise
     return stage
 
 
@@ -713,6 +781,22 @@ def _lzma_probe_peak(data: bytes) -> int:
         tracemalloc.stop()
 
 
+def _run_charged(runner, sname):
+    """runner() — with a per-case budget overrun that surfaces while an exception of the call is being unwound (signal handlers
+    only run once a Python-level handler is reached, i.e. in this frame) still charged to the library call."""
+    try:
+        try:
+            return runner() or "done"
+        except CaseTimeout:
+            raise
+        except BaseException:
+            raise  # the pending timer, if any, fires here: inside the inner handler, wrapped by the outer one
+    except CaseTimeout as e:
+        if not getattr(e, "in_lib_call", None) and not core_in_library(e):
+            e.in_lib_call = f"c11-driver:{sname}"
+        raise
+
+
 def check(spec) -> Outcome:
     out = Outcome()
     sname = spec["seed"]
@@ -752,6 +836,12 @@ def check(spec) -> Outcome:
         elif spec.get("craft") == "bomb-footer":
             mutated = vmdk_bomb_with_footer(spec["front_grain"])
             out.cls("crafted")
+        elif spec.get("craft") == "bomb-stream":
+            mutated = vmdk_bomb(spec["form"])
+            out.cls("crafted")
+        elif spec.get("craft") == "pax-cycle":
+            mutated = vmtar_pax_cycle(spec["lead"], spec["size"], spec["target"])
+            out.cls("crafted-cycle")
         elif spec.get("craft") == "biggrain-sweep":
             mutated = biggrain_vmdk()
             unit = 8192 * 512
@@ -765,6 +855,11 @@ def check(spec) -> Outcome:
             mutated = apply_ops(data, spec["ops"])
             for op in spec["ops"]:
                 out.cls("op-" + op[0])
+            if spec.get("rechk") and sname == "vmtar":
+                mb = bytearray(mutated)
+                tar_rechecksum(mb)
+                mutated = bytes(mb)
+                out.cls("tar-checksum-repaired")
         changed = mutated != data
         inp_len = len(mutated)
         if sname == "vmtar-gz":
@@ -779,7 +874,7 @@ def check(spec) -> Outcome:
     t0 = time.process_time()
     err = None
     try:
-        stage = runner() or "done"
+        stage = _run_charged(runner, sname)
     except CaseTimeout:
         tracemalloc.stop()
         raise
@@ -797,6 +892,11 @@ def check(spec) -> Outcome:
             if any(n in ("_read", "read_sectors", "touch_stream", "as_dict", "decrypt", "unlock_with_phrase", "disks", "extractfile", "getmembers", "snapshots") for n in frames):
                 stage = "opened"
     finally:
+        # the library call is over: what follows is bookkeeping, and the CPU time used is judged below (a call that ran out of
+        # memory after seconds of work would otherwise trip the per-case timer in here)
+        import signal
+
+        signal.setitimer(signal.ITIMER_PROF, 0, 0)
         cpu = time.process_time() - t0
         peak = tracemalloc.get_traced_memory()[1] if tracemalloc.is_tracing() else 0
         tracemalloc.stop()
